@@ -268,3 +268,99 @@ def encoder_table(mod, runner_mod=None):
         out[f] = rows
         out[f + ':pack'] = sorted({x[1:] for x in hooks.log if x[0] == 'packrow'}, key=repr)
     return out
+
+
+# ---- byte order / sign extension (byte-slot domain, loops unrolled) ------------------------------------------------------
+def decoder_assembly(C, mod):
+    """for (width, check_boundaries): per accepting path, which input byte ends up in which byte of the decoded word.
+    -> dict (w, check) -> list of dict(slots=[...], ok=bool, why=str)"""
+    fn = mod.functions.get('_parse_integer')
+    lay = C.lay
+    C.I.ctx.limits['slots'] = True
+    C.I.ctx.limits['unroll'] = set(C.I.ctx.limits.get('unroll', ())) | {'_parse_integer'}
+    res = {}
+    for (w, chk) in ((1, 1), (2, 1), (4, 1), (8, 1), (8, 0)):
+        st = C.I.new_state()
+        bs = st.fresh('cfg:buffer_size', lay.szw, 8, lay.objmax)
+        st.add_region(Region('BUF', 'buf', Aff.sym(bs), readonly=True, content='bytes'))
+        st.add_region(Region('LD', 'obj', Aff(2 * lay.ptr)))
+        st.add_region(Region('OUTV', 'obj', Aff(8)))
+        st.mem['LD'] = {}
+        st.mem['OUTV'] = {}
+        st.owned |= {'LD', 'OUTV'}
+        C.setcell(st, 'LD', lay.bbuf['bsize'][0], lay.ptr, Int(lay.szw, Aff(w)))
+        C.setcell(st, 'LD', lay.bbuf['bptr'][0], lay.ptr, Ptr('BUF', Aff(0)))
+        insyms = []
+        for k in range(w):
+            sym = st.fresh('byte:in[%d]' % k, 8)
+            st.bufmemo[('BUF', Aff(k).key())] = sym
+            insyms.append(sym)
+        st.frames = [C._root_frame()]
+        outs = C.split_bool_returns(C.I.call_function(st, fn, [Ptr('LD', Aff(0)), Ptr('OUTV', Aff(0)), Int(1, Aff(chk))], None))
+        rows = []
+        for (s, rv) in outs:
+            if s.store.const_of(rv.a) != 1:
+                continue
+            c = (s.cells('OUTV') or {}).get(((0, ()), 8))
+            sl = C.I.ops.slots(s, c[2]) if c is not None else None
+            ok = sl is not None and len(sl) == 8
+            why = ''
+            if ok:
+                for k in range(w):
+                    if sl[k] != ('b', insyms[k]):
+                        ok = False
+                        why = 'byte %d of the decoded word is %r, expected input byte %d' % (k, sl[k], k)
+                zeros, ones = s.kb.get(insyms[w - 1], (0, 0))
+                for k in range(w, 8):
+                    if sl[k] == ('c', 0xff) and (ones & 0x80):
+                        continue
+                    if sl[k] == ('c', 0x00) and (zeros & 0x80):
+                        continue
+                    ok = False
+                    why = why or 'byte %d of the decoded word is %r, expected the sign fill of input byte %d (sign bit known: zeros=%#x ones=%#x)' % (k, sl[k], w - 1, zeros, ones)
+            else:
+                why = 'decoded word has no byte-slot description (%r)' % (sl,)
+            rows.append({'slots': [repr(x) for x in (sl or ())], 'ok': ok, 'why': why})
+        res[(w, chk)] = rows
+    C.I.ctx.limits['slots'] = False
+    return res
+
+
+class EncByteHooks(EncHooks):
+    def on_call(self, st, name, args, ins):
+        EncHooks.on_call(self, st, name, args, ins)
+        if name == '_write' and len(args) == 2 and isinstance(args[1], Ptr):
+            lay = self.lay
+            reg = args[1].region
+            S = st.store
+            bsz = (st.cells(reg) or {}).get((args[1].off.add(lay.bbuf['bsize'][0]).key(), lay.ptr))
+            bpt = (st.cells(reg) or {}).get((args[1].off.add(lay.bbuf['bptr'][0]).key(), lay.ptr))
+            size = S.const_of(bsz[2].a) if bsz and isinstance(bsz[2], Int) else None
+            if size is None or not bpt or not isinstance(bpt[2], Ptr) or not bpt[2].region.startswith('L'):
+                return
+            src = bpt[2]
+            by = []
+            for k in range(1, size):
+                c = (st.cells(src.region) or {}).get((src.off.add(k).key(), 1))
+                sl = self.interp.ops.slots(st, c[2]) if c is not None else None
+                d = sl[0] if sl else None
+                if d is not None and d[0] == 'v':
+                    info = st.syminfo.get(d[1])
+                    d = ('v', info.origin if info else d[1], d[2])
+                by.append(d)
+            self.log.append(('packbytes', size - 1, tuple(by)))
+
+
+def encoder_bytes(mod):
+    """-> dict fn -> sorted list of (width, (descr of payload byte 0..w-1))"""
+    from engine.contracts import Contracts
+    out = {}
+    for f in ('binson_write_integer', 'binson_write_string_with_len', 'binson_write_bytes', 'binson_write_double'):
+        hooks = EncByteHooks()
+        C = Contracts(mod, hooks)
+        C.I.ctx.limits['partition_small_consts'] = True
+        C.I.ctx.limits['slots'] = True
+        C.I.ctx.limits['unroll'] = {'_int_pack_size'}
+        C.run(f, only=lambda l: l == 'wok')
+        out[f] = sorted({x[1:] for x in hooks.log if x[0] == 'packbytes'}, key=repr)
+    return out
